@@ -11,6 +11,12 @@ Four kinds of cases (inp['kind']):
           row reordering / stacking / length changes, ...); as long as one of its columns is a series column -- of any
           depth, 0 included, at any position -- io.writetxt must raise TypeError (nothing is read from the file); once
           the program has removed / reduced every series column the whole round trip applies again
+  hist    a table of plain columns with a history: between looks at the table that may leave something cached (reads of
+          dm.column_names, iteration over the cells of a row / of all rows, an earlier io.writetxt to the same path)
+          columns are created by type, by (type, kwargs), by value, under a second name for an existing column, renamed,
+          deleted (by name, by attribute, by object), cells are assigned, rows reordered / stacked / resized; then the
+          round trip: the file must list the table's CURRENT columns (the written table is observed through dm.columns,
+          not through dm.column_names, which is what writetxt itself consults)
 """
 import csv
 import hashlib
@@ -20,6 +26,7 @@ import math
 import os
 import shutil
 import tempfile
+import unicodedata
 import warnings
 
 import numpy as np
@@ -34,7 +41,31 @@ BOM = '\ufeff'
 DIALECTS = [(',', '"'), (';', '"'), ('\t', "'"), ('|', '"'), (',', "'")]
 DELIM_NAME = {',': 'comma', ';': 'semicolon', '\t': 'tab', '|': 'pipe'}
 QUOTE_NAME = {'"': 'dquote', "'": 'squote'}
-NAMES = ['a', 'b', 'c', 'x1', 'col_2', '_u', 'B', 'Zed', 'naïve', 'λ', '名前']
+# identifier-like names (str.isidentifier()) that differ only by Unicode normal form: (not NFKC / not NFC, its NFKC form).
+# Python normalises identifiers in SOURCE text (PEP 3131); a column name is a dict key and must come back as written.
+NF_PAIRS = [p for p in [
+    ('\xb5V', '\u03bcV'),                  # MICRO SIGN / GREEK SMALL LETTER MU
+    ('dure\u0301e', 'dur\xe9e'),            # NFD / NFC
+    ('n\u0303o', '\xf1o'),                  # NFD / NFC
+    ('\u1100\u1161', '\uac00'),             # conjoining jamo / precomposed syllable
+    ('\ufb01t', 'fit'),                     # LATIN SMALL LIGATURE FI
+    ('\uff41\uff42', 'ab'),                 # fullwidth letters
+    ('\uff58\uff11', 'x1'),                 # fullwidth letter + fullwidth digit
+    ('\u212bng', '\xc5ng'),                 # ANGSTROM SIGN (a canonical singleton: changed by NFC as well)
+    ('\u212a', 'K'),                        # KELVIN SIGN
+    ('\u2126m', '\u03a9m'),                 # OHM SIGN
+    ('x\u207f', 'xn'),                      # SUPERSCRIPT LATIN SMALL LETTER N (a modifier letter, hence an identifier)
+    ('\u1d43b', 'ab'),                      # MODIFIER LETTER SMALL A
+    ('x\xaa', 'xa'),                        # FEMININE ORDINAL INDICATOR
+    ('\u017ft', 'st'),                      # LATIN SMALL LETTER LONG S
+    ('\u2167', 'VIII'),                     # ROMAN NUMERAL EIGHT
+    ('\u01c6', 'd\u017e'),                  # digraph
+    ('\u210c', 'H'),                        # BLACK-LETTER CAPITAL H
+    ('\u1e9b\u0323', '\u1e69'),             # NFC, NFD, NFKC and NFKD of this one are four different strings
+] if all(x.isidentifier() and '\r' not in x for x in p) and p[0] != p[1]]
+NF_NAMES = [p[0] for p in NF_PAIRS]
+NAMES = ['a', 'b', 'c', 'x1', 'col_2', '_u', 'B', 'Zed', 'naïve', 'λ', '名前'] + NF_NAMES[:9] + ['\u03bcV', 'dur\xe9e', 'fit']
+assert len(set(NAMES)) == len(NAMES)
 INTS = [0, 1, -1, 7, -13, 2**31, 2**53 - 1, 2**53, 2**53 + 1, -(2**53) - 1, 2**62 + 3]
 FLOATS = [0.0, -0.0, 1.0, -3.0, 2.5, -0.75, 0.1, 1e22, 1e23, 1.5e300, 5e-324, 2.2250738585072014e-308, 123456789.0,
           9007199254740992.0, 4294967296.5, float('nan'), float('inf'), float('-inf')]
@@ -76,6 +107,14 @@ def _lit_ok(names, rows):
 def _table(dm):
     """(names, rows) of a DataMatrix read cell by cell through dm[name][i]."""
     names = list(dm.column_names)
+    rows = [[_plain(dm[nm][i]) for nm in names] for i in range(len(dm))]
+    return names, rows
+
+
+def _table_cols(dm):
+    """(names, rows) of a table that is about to be written: the names are those of dm.columns (the (name, column) pairs
+    of the table as it is now), NOT dm.column_names, which is what writetxt and Row.__iter__ consult themselves."""
+    names = [nm for nm, _ in dm.columns]
     rows = [[_plain(dm[nm][i]) for nm in names] for i in range(len(dm))]
     return names, rows
 
@@ -245,6 +284,20 @@ def _cell_classes(v, delim, quote):
     return ['other']
 
 
+def _name_classes(names):
+    out = set()
+    for x in names:
+        if any(ord(c) > 127 for c in x):
+            out.add('name:nonascii')
+        for form in ('NFC', 'NFD', 'NFKC', 'NFKD'):
+            if unicodedata.normalize(form, x) != x:
+                out.add('name:not-' + form.lower())
+    for form in ('NFC', 'NFKC'):
+        if len({unicodedata.normalize(form, x) for x in names}) < len(set(names)):
+            out.add('name:pair-equal-under-' + form.lower())
+    return sorted(out)
+
+
 def _sig(inp):
     return hashlib.sha1(json.dumps(inp, sort_keys=True).encode('utf-8')).hexdigest()
 
@@ -258,8 +311,10 @@ class C16:
     oracle_imports = ['From DM Require Import Run.SC16.']
     model_imports = ['From DM Require Import Run.SC16 Run.RC16.']
     exhaustive = False
-    rule = ('random cases of four kinds. rt (~70%): a table of 0..6 (thorough 0..12) rows x 1..4 columns (Mixed/Float/Int '
-            'columns, identifier-like distinct names incl. non-ASCII ones; cells: ints around 0, 2^31, +-2^53(+-1), 2^62; '
+    rule = ('random cases of five kinds. rt (~60%): a table of 0..6 (thorough 0..12) rows x 1..4 columns (Mixed/Float/Int '
+            'columns, identifier-like distinct names incl. non-ASCII ones in every Unicode normal form -- NFC, NFD, names changed '
+            'by NFKC such as MICRO SIGN, ligatures, fullwidth letters and digits, ANGSTROM / KELVIN / OHM SIGN, modifier-letter '
+            'superscripts, long s, Roman numerals -- and in ~12% two names that differ only by normal form; cells: ints around 0, 2^31, +-2^53(+-1), 2^62; '
             'floats incl. -0.0, nan, +-inf, subnormal, 1e22/1e23, integral and non-integral, random ones; strings with the '
             'delimiter, the quote character, LF, tab, spaces, non-ASCII, VT/FF/FS/GS/RS/NEL/U+2028/U+2029 (str.splitlines '
             'separators that are not line ends for csv), "None", ""; None), optionally row-reordered by '
@@ -284,7 +339,15 @@ class C16:
             'that raises is counted (tag build-raised) and not judged. Fixed families in every run: zero-row tables '
             '(declared empty, emptied by a selection, emptied by the length setter), header-only files and files none of '
             'whose records reaches the last column(s), for every delimiter/quote pair x LF/CRLF/CR x BOM. '
-            'non-trivial = rt with >= 1 row / file with >= 1 record or a BOM / series; distinct by the sha1 of the '
+            'hist (~8% + ~150 fixed): a table of 0..4 rows and 1..3 plain columns with a history: 1..4 rounds of 0..2 looks '
+            '(dm.column_names, iteration over the cells of the first row / of all rows, an earlier writetxt to the same '
+            'path, writetxt + readtxt, dm.columns, name in dm) followed by a column-level change that no assignment follows '
+            '(a second name for an existing column via dm[n] / setattr, a column by type, by (type, {}), by value, rename, '
+            'del dm[name] / del dm.name / del dm[column]) or a cell write, row reordering / duplication, sorted = False, '
+            'length setter, dm << dm, copy; then the rt check, the written table being observed through dm.columns (not '
+            'through dm.column_names, which writetxt itself uses). Fixed: every look x every change; every normal-form pair as '
+            'two columns of one table, as an alias + a by-type column, as a rename, and as the header of a hand-made file. '
+            'non-trivial = rt with >= 1 row / file with >= 1 record or a BOM / series / hist; distinct by the sha1 of the '
             'generating input')
     trusted_base = [
         'Coq 8.16.1 kernel (coqc; vm_compute for evaluating cases; no native_compute)',
@@ -297,7 +360,7 @@ class C16:
         'tied to the implementation by the correspondence cases only',
         'CPython\'s builtins repr(float), int(str), float(str) used as oracles (the SH / CL lists passed with every case); '
         'Python\'s own csv.reader is used only to enumerate the field texts whose classification is passed',
-        'harness/c16.py (table observation through dm[name][i] and row iteration, file rendering of the hand-made files '
+        'harness/c16.py (table observation through dm.columns + dm[name][i] before writing, dm.column_names + dm[name][i] and row iteration after reading, file rendering of the hand-made files '
         'with csv.writer; which columns are series columns is read from the class of the column objects in dm.columns), '
         'harness/pyobs.py, harness/coqlit.py',
     ]
@@ -349,6 +412,8 @@ class C16:
                     return self._raw(inp, path)
                 if kind == 'series':
                     return self._series(inp, path)
+                if kind == 'hist':
+                    return self._series(inp, path, 'hist')
                 raise AssertionError(kind)
         finally:
             self._leave(path, owns)
@@ -398,7 +463,7 @@ class C16:
             dm = dm[perm]
         if not inp.get('sorted', True):
             dm.sorted = False
-        names, rows = _table(dm)
+        names, rows = _table_cols(dm)
         assert len(rows) == n and all(type(x) is str for x in names), (names, rows)
         assert all(_is_plain(v) for r in rows for v in r), rows
         tags = ['rt', 'rows%d' % n, 'cols%d' % len(cols), 'order:' + order] + sorted({'col:' + c['type'] for c in cols})
@@ -412,7 +477,7 @@ class C16:
         delim, quote = inp['delim'], inp['quote']
         classes = sorted({k for r in rows for v in r for k in _cell_classes(v, delim, quote)})
         tags = tags + ['delim:' + DELIM_NAME.get(delim, repr(delim)), 'quote:' + QUOTE_NAME.get(quote, repr(quote))] + \
-            ['cell:' + k for k in classes]
+            ['cell:' + k for k in classes] + _name_classes(names)
         D, Q = _ascii(delim), _ascii(quote)
         NAMES_, ROWS_ = _names_lit(names), _rows_lit(rows)
         # the column objects as DataMatrix.is_2d sees them: none of them is a series column
@@ -579,7 +644,7 @@ class C16:
 
     def _step(self, dm, st):
         """One building step of a series case; returns the (possibly new) DataMatrix."""
-        from datamatrix import SeriesColumn, operations as ops, series as srs
+        from datamatrix import SeriesColumn, operations as ops, series as srs, io as dmio
         op = st[0]
         if op == 'plain':
             _, name, style, typ = st
@@ -602,6 +667,45 @@ class C16:
             dm[st[1]] = dm[st[2]][:, int(st[3]):int(st[4])]
         elif op == 'alias':
             dm[st[1]] = dm[st[2]]
+        elif op == 'aliasattr':
+            setattr(dm, st[1], dm[st[2]])
+        elif op == 'bytype':                    # a column created by type and not assigned to
+            dm[st[1]] = _coltype(st[2])
+        elif op == 'bykw':                      # ... by (type, kwargs)
+            dm[st[1]] = (_coltype(st[2]), {})
+        elif op == 'byvalue':                   # ... by value (of the table's default column type)
+            dm[st[1]] = [self.STYLES[st[2]](i) for i in range(len(dm))] if len(dm) else st[3]
+        elif op == 'cell':
+            dm[st[1]][int(st[2]) % len(dm)] = st[3]
+        elif op == 'delattr':
+            delattr(dm, st[1])
+        elif op == 'delobj':
+            del dm[dm[st[1]]]
+        elif op == 'peek':
+            # a look at the table that changes nothing (but may leave something cached inside it)
+            how = st[1]
+            if how == 'names':
+                list(dm.column_names)
+            elif how == 'iter':
+                for row in dm:
+                    for _nm, _v in row:
+                        pass
+                    break
+            elif how == 'iterall':
+                [[v for _nm, v in row] for row in dm]
+            elif how == 'cols':
+                [nm for nm, _c in dm.columns]
+            elif how == 'write':                # an earlier writetxt to the same path (the final one must replace it)
+                path, delim, quote = self._cur
+                dmio.writetxt(dm, path, delimiter=delim, quotechar=quote)
+            elif how == 'writeread':
+                path, delim, quote = self._cur
+                dmio.writetxt(dm, path, delimiter=delim, quotechar=quote)
+                dmio.readtxt(path, delimiter=delim, quotechar=quote)
+            elif how == 'contains':
+                [nm in dm for nm, _c in dm.columns]
+            else:
+                raise AssertionError(how)
         elif op == 'rename':
             dm.rename(st[1], st[2])
         elif op == 'del':
@@ -680,7 +784,7 @@ class C16:
             raise AssertionError(op)
         return dm
 
-    def _series(self, inp, path):
+    def _series(self, inp, path, kind='series'):
         from datamatrix import DataMatrix, io as dmio
         if 'steps' not in inp:      # the first form of these inputs: extra_cols plain columns, then one series column
             steps = [['plain', 'c%d' % j, 'int', 'mixed'] for j in range(int(inp['extra_cols']))] + \
@@ -689,7 +793,8 @@ class C16:
         else:
             inp2 = inp
         delim, quote = inp2['delim'], inp2['quote']
-        tags = ['series', 'rows0:%d' % int(inp2['rows'])]
+        tags = [kind, 'rows0:%d' % int(inp2['rows'])]
+        self._cur = (path, delim, quote)
         neutral = {'input': inp, 'observed': {}, 'pyfail': None, 'oracle': 'true', 'model': 'true', 'nontrivial': False,
                    'sig': _sig(inp), 'tags': tags + ['build-raised']}
         # ---- build (an exception here is not a verdict on writetxt: the case is counted and left aside)
@@ -697,7 +802,7 @@ class C16:
             dm = DataMatrix(length=int(inp2['rows']))
             for st in inp2['steps']:
                 dm = self._step(dm, st)
-                tags.append('op:' + (st[0] if st[0] != 'fn' else 'fn-' + st[1]))
+                tags.append('op:' + (st[0] if st[0] not in ('fn', 'peek') else st[0] + '-' + st[1]))
             cols = _colobjs(dm)
             nrows = len(dm)
         except KeyboardInterrupt:
@@ -727,7 +832,7 @@ class C16:
         if not depths:
             # two-dimensional again: the whole round trip applies
             try:
-                names, rows = _table(dm)
+                names, rows = _table_cols(dm)
                 ok = all(type(x) is str for x in names) and all(_is_plain(v) for r in rows for v in r)
             except KeyboardInterrupt:
                 raise
@@ -737,6 +842,8 @@ class C16:
             if not ok:
                 neutral['tags'] = tags + ['non-plain-cells']
                 return neutral
+            if kind == 'hist':
+                return self._write_read(dm, inp, path, names, rows, tags, True)
             return self._write_read(dm, inp, path, names, rows, tags + ['series-resolved'], True)
         # ---- write: must raise TypeError; nothing is read from the file
         raised = None
@@ -808,11 +915,156 @@ class C16:
             return self._rand_str(rng, delim, quote)
         return None
 
+    @staticmethod
+    def _names(rng, k):
+        """k distinct identifier-like names; in ~12% two of them differ only by Unicode normal form"""
+        if k >= 2 and rng.random() < 0.12:
+            pair = list(rng.choice(NF_PAIRS))
+            names = pair + rng.sample([x for x in NAMES if x not in pair], k - 2)
+            rng.shuffle(names)
+            return names
+        return rng.sample(NAMES, k)
+
+    def gen_hist(self, rng):
+        """A table of plain columns with a history of looks and column-level changes (see the module docstring)."""
+        delim, quote = rng.choice(DIALECTS)
+        n = rng.choice([0, 1, 2, 2, 3, 4])
+        pool = self._names(rng, 8)
+        steps = []
+        have = {}               # name -> style
+
+        def style_typ():
+            style = rng.choice(['int', 'str', 'float', 'mix', 'key'])
+            typ = {'int': rng.choice(['int', 'mixed', 'float']), 'float': rng.choice(['float', 'mixed'])}.get(style, 'mixed')
+            return style, typ
+
+        def peek():
+            hows = ['names', 'names', 'iter', 'iter', 'iterall', 'write', 'write', 'writeread', 'cols', 'contains']
+            steps.append(['peek', rng.choice(hows)])
+
+        def insert():
+            """a new name that no assignment follows"""
+            new = pool.pop()
+            c = rng.random()
+            if have and c < 0.4:
+                src = rng.choice(sorted(have))
+                steps.append([rng.choice(['alias', 'alias', 'aliasattr']), new, src])
+                have[new] = have[src]
+            elif c < 0.65:
+                steps.append(['bytype', new, rng.choice(['mixed', 'float', 'int'])])
+                have[new] = 'int'
+            elif c < 0.85:
+                steps.append(['bykw', new, rng.choice(['mixed', 'float', 'int'])])
+                have[new] = 'int'
+            else:
+                style = rng.choice(['int', 'str', 'mix', 'key'])
+                steps.append(['byvalue', new, style, rng.choice([0, 'x', 1.5])])
+                have[new] = style
+
+        def change():
+            c = rng.random()
+            if c < 0.42 and pool:
+                insert()
+            elif c < 0.52 and pool and have:
+                old = rng.choice(sorted(have))
+                new = pool.pop()
+                steps.append(['rename', old, new])
+                have[new] = have.pop(old)
+            elif c < 0.64 and len(have) >= 2:
+                x = rng.choice(sorted(have))
+                steps.append([rng.choice(['del', 'delattr', 'delobj']), x])
+                if steps[-1][0] == 'delobj':
+                    # deletes the FIRST name under which the column object is found: not tracked further
+                    have.clear()
+                else:
+                    del have[x]
+            elif c < 0.72 and have and n:
+                steps.append(['cell', rng.choice(sorted(have)), rng.randrange(8), rng.choice([3, 'q', 2.5])])
+            elif c < 0.8:
+                steps.append(['rows', rng.choice(['rev', 'tail', 'dup'])])
+            elif c < 0.85:
+                steps.append(['unsorted'])
+            elif c < 0.9:
+                steps.append(['length', rng.choice([-1, 1, 2])])
+            elif c < 0.94:
+                steps.append(['stack'])
+            else:
+                steps.append(['copy'])
+
+        for _ in range(rng.choice([1, 1, 2, 2, 3])):
+            nm = pool.pop()
+            style, typ = style_typ()
+            steps.append(['plain', nm, style, typ])
+            have[nm] = style
+        if rng.random() < 0.12:
+            steps.append(['unsorted'])
+        for _ in range(rng.choice([1, 1, 2, 2, 3, 4])):
+            if not pool:
+                break
+            for _ in range(rng.choice([0, 1, 1, 1, 2])):
+                peek()
+            if rng.random() < 0.5 and pool:
+                insert()
+            else:
+                change()
+            if steps[-1][0] == 'delobj':
+                break
+        return {'kind': 'hist', 'rows': n, 'steps': steps, 'delim': delim, 'quote': quote}
+
+    def _fixed_hist(self):
+        """look, then a column-level change that nothing follows, then the round trip: every look x every change; the
+        normal-form name pairs and every not-normalised name as written tables and as hand-made files"""
+        out = []
+        k = 0
+
+        def case(rows, steps, kind='hist'):
+            nonlocal k
+            delim, quote = DIALECTS[k % len(DIALECTS)]
+            k += 1
+            out.append({'kind': kind, 'rows': rows, 'steps': steps, 'delim': delim, 'quote': quote})
+        P = lambda nm, style='int', typ='mixed': ['plain', nm, style, typ]      # noqa: E731
+        changes = [[['alias', 'lat', 'rt']], [['aliasattr', 'A', 'cond']], [['bytype', 'n', 'int']], [['bytype', 'z', 'mixed']],
+                   [['bykw', 'f', 'float']], [['byvalue', 'v', 'key', 0]], [['rename', 'rt', 'RT']], [['del', 'cond']],
+                   [['delattr', 'rt']], [['delobj', 'rt']], [['alias', 'lat', 'rt'], ['del', 'rt']],
+                   [['bytype', 'n', 'float'], ['rename', 'n', 'm']], [['alias', 'x', 'rt'], ['bykw', 'y', 'mixed']]]
+        looks = ['names', 'iter', 'iterall', 'write', 'writeread', 'cols', 'contains']
+        j = 0
+        for ch in changes:
+            for look in looks:
+                j += 1
+                rows = [3, 1, 0, 2][j % 4]
+                if rows == 0 and look == 'iter':
+                    rows = 1
+                steps = [P('rt', 'int', ['int', 'mixed', 'float'][j % 3]), P('cond', 'key')]
+                if j % 5 == 0:
+                    steps.append(['unsorted'])
+                case(rows, steps + [['peek', look]] + ch)
+        # the same change between two looks / twice / after a row-level step
+        case(2, [P('a'), ['peek', 'write'], ['bytype', 'b', 'int'], ['peek', 'write'], ['alias', 'c', 'a']])
+        case(2, [P('a'), ['peek', 'names'], ['rows', 'rev'], ['peek', 'iter'], ['alias', 'c', 'a']])
+        case(3, [P('a'), P('b', 'str'), ['peek', 'iterall'], ['length', 1], ['peek', 'names'], ['bykw', 'c', 'int']])
+        case(1, [P('a'), ['peek', 'names'], ['alias', 'b', 'a'], ['alias', 'c', 'b'], ['del', 'a']])
+        case(2, [P('a'), P('b', 'str'), ['peek', 'write'], ['del', 'b'], ['peek', 'write'], ['bytype', 'b', 'float']])
+        # names that are not in normal form, pairs that differ only by normal form
+        for a, b in NF_PAIRS:
+            j += 1
+            case([2, 1, 3][j % 3], [P(a, 'int', ['int', 'mixed', 'float'][j % 3]), P('plain', 'str'), P(b, 'key')])
+            case(2, [P('plain'), ['peek', 'names'], ['alias', a, 'plain'], ['bytype', b, 'int']])
+            case(1, [P(b, 'str'), ['rename', b, a]])
+            delim, quote = DIALECTS[j % len(DIALECTS)]
+            out.append({'kind': 'file', 'delim': delim, 'quote': quote, 'hdr': [a, 'plain', b] if j % 2 else [b, a],
+                        'recs': [['1', 'x', '2.5'], ['u'], ['3', a, b, b]], 'nl': ['\n', '\r\n', '\r'][j % 3],
+                        'bom': j % 4 == 0, 'quoting': ['minimal', 'all'][j % 2], 'strip_last': j % 3 == 0})
+        for i in range(0, len(NF_NAMES), 6):
+            case(2, [P(x, ['int', 'str', 'float', 'mix'][q % 4], ['mixed', 'mixed', 'float', 'mixed'][q % 4])
+                     for q, x in enumerate(NF_NAMES[i:i + 6])])
+        return out
+
     def gen_rt(self, rng, maxrows):
         delim, quote = rng.choice(DIALECTS)
         n = 0 if rng.random() < 0.04 else rng.randint(1, maxrows)
         ncols = rng.choice([1, 1, 2, 2, 3, 3, 4])
-        names = rng.sample(NAMES, ncols)
+        names = self._names(rng, ncols)
         cols = []
         for nm in names:
             typ = rng.choice(['mixed', 'mixed', 'mixed', 'float', 'int'])
@@ -831,7 +1083,7 @@ class C16:
 
     def gen_file(self, rng, maxrecs):
         delim, quote = rng.choice(DIALECTS)
-        hdr = rng.sample(NAMES, rng.randint(1, 4))
+        hdr = self._names(rng, rng.randint(1, 4))
         nl = rng.choice(['\n', '\n', '\r\n', '\r\n', '\r'])
         quoting = 'all' if rng.random() < 0.3 else 'minimal'
         recs = []
@@ -1119,19 +1371,21 @@ class C16:
 
     def generate(self, rng, tier):
         thorough = tier == 'thorough'
-        total = 9000 if thorough else 1500
+        total = 9000 if thorough else 1600
         maxrows = 12 if thorough else 6
         os.makedirs(WORK, exist_ok=True)
         self._dir = tempfile.mkdtemp(prefix='c16-', dir=WORK)
         cases = []
         try:
-            inputs = self._fixed() + self._fixed_series() + self._fixed_empty()
+            inputs = self._fixed() + self._fixed_series() + self._fixed_empty() + self._fixed_hist()
             for k in range(8 if thorough else 6):
                 inputs.append({'kind': 'series', 'depth': rng.randint(0, 5), 'rows': k % 4, 'extra_cols': k % 3})
             while len(inputs) < total:
                 c = rng.random()
-                if c < 0.64:
+                if c < 0.57:
                     inputs.append(self.gen_rt(rng, maxrows))
+                elif c < 0.65:
+                    inputs.append(self.gen_hist(rng))
                 elif c < 0.83:
                     inp = self.gen_file(rng, maxrows)
                     if self.render_file(inp) is not None:
@@ -1209,7 +1463,7 @@ class C16:
                         c = clone()
                         c['recs'][i][j] = 'a'
                         out.append(c)
-        elif kind == 'series' and 'steps' in inp:
+        elif kind in ('series', 'hist') and 'steps' in inp:
             for i in range(len(inp['steps']) - 1, -1, -1):      # an ill-formed candidate is judged neutral, not failing
                 c = clone()
                 del c['steps'][i]
@@ -1236,9 +1490,10 @@ class C16:
         tags = case.get('tags', [])
         kind = i.get('kind')
         if kind == 'rt':
-            return 'rt delim=%r quote=%r types=%s cell-classes=%s' % (
+            return 'rt delim=%r quote=%r types=%s cell-classes=%s names=%s' % (
                 i['delim'], i['quote'], ','.join(sorted({c['type'] for c in i['cols']})),
-                ','.join(t[5:] for t in tags if t.startswith('cell:')))
+                ','.join(t[5:] for t in tags if t.startswith('cell:')),
+                ','.join(t[5:] for t in tags if t.startswith('name:')))
         if kind == 'file':
             return 'file delim=%r quote=%r nl=%s bom=%s quoting=%s shape=%s' % (
                 i['delim'], i['quote'], NL_NAME.get(i['nl']), i['bom'], i['quoting'],
@@ -1246,6 +1501,12 @@ class C16:
                                                    'numeric-text', 'no-records', 'all-short')))
         if kind == 'raw':
             return 'raw delim=%r quote=%r outcome=%s' % (i['delim'], i['quote'], tags[-1] if tags else '?')
+        if kind == 'hist':
+            return 'hist delim=%r quote=%r ops=%s shape=%s names=%s' % (
+                i['delim'], i['quote'], ','.join(sorted(t[3:] for t in tags if t.startswith('op:'))),
+                ','.join(t for t in tags if t.startswith(('rows', 'ncols', 'build-', 'no-', 'non-'))
+                         and not t.startswith('rows0:')),
+                ','.join(t[5:] for t in tags if t.startswith('name:')))
         if kind == 'series':
             if 'steps' not in i:
                 return 'series depth=%s rows=%s extra_cols=%s' % (i['depth'], i['rows'], i['extra_cols'])
